@@ -173,9 +173,10 @@ fn ops_for(p: &Proto, b: Backend, stateless: bool, plen: usize, bit_stride: usiz
     ops
 }
 
-fn nonce_pair_ops(p: &Proto, all_pairs: bool) -> Vec<Op> {
+fn nonce_pair_ops(p: &Proto, all_pairs: bool, stateful_reader: bool) -> Vec<Op> {
     let mut ops = sess::handshake_ops(p, &[0, 0, 0, 0]);
-    ops.extend(sess::convert_ops(Mode::SS));
+    // the reader is either stateless (nonce supplied per call) or stateful with set_receiving_nonce
+    ops.extend(sess::convert_ops(if stateful_reader { Mode::ST } else { Mode::SS }));
     let ns = nonces();
     let base = ops.len();
     let _ = base;
@@ -185,10 +186,20 @@ fn nonce_pair_ops(p: &Proto, all_pairs: bool) -> Vec<Op> {
         let idx = (p.n_msgs() + 1) / 2 + k;
         for &b in &ns {
             if b != a && (all_pairs || b == 0 || a == 0 || (a ^ b).count_ones() <= 2 || b == a.swap_bytes() || b == (a as u32) as u64 || b == a >> 32) {
-                ops.push(Op::SRead { side: Side::R, nonce: b, msg: Msg::Wire(Side::I, idx), cap: Cap::Roomy });
+                if stateful_reader {
+                    ops.push(Op::SetRecvNonce { side: Side::R, n: b });
+                    ops.push(Op::TRead { side: Side::R, msg: Msg::Wire(Side::I, idx), cap: Cap::Roomy });
+                } else {
+                    ops.push(Op::SRead { side: Side::R, nonce: b, msg: Msg::Wire(Side::I, idx), cap: Cap::Roomy });
+                }
             }
         }
-        ops.push(Op::SRead { side: Side::R, nonce: a, msg: Msg::Wire(Side::I, idx), cap: Cap::Roomy });
+        if stateful_reader {
+            ops.push(Op::SetRecvNonce { side: Side::R, n: a });
+            ops.push(Op::TRead { side: Side::R, msg: Msg::Wire(Side::I, idx), cap: Cap::Roomy });
+        } else {
+            ops.push(Op::SRead { side: Side::R, nonce: a, msg: Msg::Wire(Side::I, idx), cap: Cap::Roomy });
+        }
     }
     ops
 }
@@ -238,20 +249,20 @@ pub fn run(tier: Tier) -> i32 {
         }
     });
     // stateless: genuine message under a different nonce
-    let pair_cases: Vec<(Proto, Backend)> = cipher_backends().into_iter().flat_map(|(c, b)| vec![(proto("NN", &[], DhAlg::X25519, c, HashAlg::Sha256), b), (proto("N", &[], DhAlg::X25519, c, HashAlg::Blake2s), b)]).collect();
-    pair_cases.par_iter().for_each(|(p, b)| {
+    let pair_cases: Vec<(Proto, Backend, bool)> = cipher_backends().into_iter().flat_map(|(c, b)| vec![(proto("NN", &[], DhAlg::X25519, c, HashAlg::Sha256), b, false), (proto("N", &[], DhAlg::X25519, c, HashAlg::Blake2s), b, false), (proto("NN", &[], DhAlg::X25519, c, HashAlg::Sha512), b, true)]).collect();
+    pair_cases.par_iter().for_each(|(p, b, stateful_reader)| {
         let cfg = session_cfg(p, *b, 0);
-        let ops = nonce_pair_ops(p, true);
+        let ops = nonce_pair_ops(p, true, *stateful_reader);
         let e = Exec::run(&cfg, &ops);
         ctx.add(&ctx.evaluations, e.steps.len() as u64);
         ctx.add(&ctx.transitions, e.steps.len() as u64);
         ctx.add(&ctx.traces, 1);
-        let rejected = e.steps.iter().filter(|s| matches!(s.op, Op::SRead { .. }) && !s.real.is_ok()).count();
+        let rejected = e.steps.iter().filter(|s| matches!(s.op, Op::SRead { .. } | Op::TRead { .. }) && !s.real.is_ok()).count();
         ctx.add(&ctx.nontrivial, rejected as u64);
         ctx.count("nonce_pairs_rejected", rejected as u64);
         for m in sess::filter(&e, &CATS) {
             let mut small = ops[..2 * p.n_msgs() + 2].to_vec();
-            if let Some(Op::SRead { nonce, msg: Msg::Wire(_, idx), .. }) = ops.get(m.step) {
+            if let (false, Some(Op::SRead { nonce, msg: Msg::Wire(_, idx), .. })) = (*stateful_reader, ops.get(m.step)) {
                 // rebuild: the write of that wire and the offending read
                 let k = idx - (p.n_msgs() + 1) / 2;
                 let a = nonces()[k];
